@@ -274,6 +274,9 @@ Theorem C18_catchup_guards_are_the_source_guards :
   ((forall cmax mx, rs_catchup_uptodate cmax mx = g_catchup_uptodate cmax mx) \/
    (forall cmax mx, rs_catchup_uptodate cmax mx = negb (g_catchup_uptodate cmax mx))) /\
   ((forall mx cgc, rs_catchup_obsolete mx cgc = g_catchup_obsolete mx cgc) \/
-   (forall mx cgc, rs_catchup_obsolete mx cgc = negb (g_catchup_obsolete mx cgc))).
-Proof. exact (conj tie_catchup_uptodate tie_catchup_obsolete). Qed.
+   (forall mx cgc, rs_catchup_obsolete mx cgc = negb (g_catchup_obsolete mx cgc))) /\
+  (* the frontier an accepted catch-up leaves: the larger of the supplied and the own watermark / max version *)
+  (forall gc cgc mx cmax, rs_catchup_new_gc gc cgc mx cmax = g_catchup_new_gc gc cgc) /\
+  (forall gc cgc mx cmax, rs_catchup_new_max gc cgc mx cmax = g_catchup_new_max mx cmax).
+Proof. exact (conj tie_catchup_uptodate (conj tie_catchup_obsolete (conj tie_catchup_new_gc tie_catchup_new_max))). Qed.
 Print Assumptions C18_catchup_guards_are_the_source_guards.
